@@ -134,7 +134,7 @@ def finish(pid, tier, seed, mod, results, wall, t_compile, flat, replay):
         cov['disagreements_checked'] = len(viol) + len(seen)
     ev = dict(property_id=pid, tier=tier, seed=seed, level=level, coverage=cov, assumptions=list(getattr(mod, 'ASSUMPTIONS', [])),
               wall_s=round(wall, 2), violations=len(viol))
-    if not replay:
+    if not replay and not os.environ.get('VERIF_NO_EVIDENCE'):
         os.makedirs(os.path.join(VERIF, 'evidence'), exist_ok=True)
         json.dump(ev, open(os.path.join(VERIF, 'evidence', pid + '.json'), 'w'), indent=1, default=str)
         json.dump(recs, open(os.path.join(harness.scratch(), pid + '.records.json'), 'w'), default=str)
